@@ -116,10 +116,10 @@ func maxInt(a, b int) int {
 // C15: the image type conversion helpers equal draw.Draw with the Src operator.
 func C15(tier string) {
 	r := ev.Begin("C15", tier, "exploration")
-	sizes := [][2]int{{3, 2}, {1, 4}, {4, 1}, {0, 0}, {5, 4}, {2, 7}, {64, 16}, {256, 3}, {3, 131}, {1100, 3}}
+	sizes := [][2]int{{3, 2}, {1, 4}, {4, 1}, {0, 0}, {5, 4}, {2, 7}, {64, 16}, {256, 3}, {3, 131}, {1100, 3}, {2, 323}}
 	origins := []image.Point{{0, 0}, {-2, -3}, {5, 7}, {-7, 2}}
-	pars := func(rows int) []int { return []int{1, 2, 3, 4, 5, 7, 11, 13, 16, 64, rows + 5} }
-	r.Rule(fmt.Sprintf("complete product: 3 helpers x %d image types (every concrete type of package image incl. 6 YCbCr subsamplings, NYCbCrA, paletted, CMYK, alpha, plus an interface-only wrapper) x %d sizes x %d origins x {whole image, sub-image of a larger parent} x 4 byte patterns (one fully opaque) x parallelism {1,2,3,4,5,7,11,13,16,64,rows+5}; call sequences (convert, modify pixels and palette in place, convert again, convert another image sharing the palette, earlier result unchanged); thorough adds a 4096x4096 4:4:4 YCbCr holding all 2^24 (Y,Cb,Cr) triples and 256x256 NRGBA/RGBA/RGBA64/NRGBA64 images holding all 8-bit (channel, alpha) pairs; distinct = configurations with a non-empty input not already of the target type", len(imgKinds), len(sizes), len(origins)))
+	pars := func(rows int) []int { return []int{1, 2, 3, 4, 5, 7, 11, 13, 16, 64, 257, 300, rows + 5} }
+	r.Rule(fmt.Sprintf("complete product: 3 helpers x %d image types (every concrete type of package image incl. 6 YCbCr subsamplings, NYCbCrA, paletted, CMYK, alpha, plus an interface-only wrapper) x %d sizes x %d origins x {whole image, sub-image of a larger parent} x 4 byte patterns (one fully opaque) x parallelism {1,2,3,4,5,7,11,13,16,64,257,300,rows+5}; call sequences (convert, modify pixels and palette in place, convert again, convert another image sharing the palette, earlier result unchanged); thorough adds a 4096x4096 4:4:4 YCbCr holding all 2^24 (Y,Cb,Cr) triples and 256x256 NRGBA/RGBA/RGBA64/NRGBA64 images holding all 8-bit (channel, alpha) pairs; distinct = configurations with a non-empty input not already of the target type", len(imgKinds), len(sizes), len(origins)))
 	r.Assume("image.Uniform (unbounded) is not a possible input of an allocating helper and is not generated; subsampled YCbCr/NYCbCrA images with negative coordinates are skipped because package image itself mis-indexes them")
 
 	type job struct {
